@@ -36,7 +36,7 @@ RULE = (
 )
 ASSUMPTIONS = [
     "for a renamed (not moved) deprecated *task* class the markers keep the old script name: visibility of the success marker is only asserted when the script name is unchanged",
-    "what `orphans` does with repaired links is outside this property",
+    "what `orphans` does with repaired links belongs to C19 (layout option `repaired`)",
     "class families are created per case (deprecate() cannot be undone)",
 ]
 MIN_CLASSES = {"quick": {"family-below-root": 400, "repair-steps>=2": 100, "mode:fix+cleanup": 100, "pre:link-present": 20, "family-task-root": 200, "fault-injected": 15, "many-jobs-repaired-at-once": 20, "workspace-named-by-a-relative-path": 100}, "thorough": {"repair-steps>=2": 1000}}
